@@ -333,14 +333,38 @@ def r5_retry_handle_is_unmasked(ctx):
         o = T.origins_of_arg(t, 0)
         if o and all(x.kind == "const" and x.const_int() == 0 for x in o):
             out.append(holds("C08.R5", "new_unmasked:fsopen-arg", t.where(), "new_fsopen(false)"))
+        elif o and F.body(nf).local_tys[1] != "bool" and len({repr(x) for x in o}) == 1:
+            # not a bool any more: what the constant means is decided by specialising new_fsopen on it (below)
+            out.append(holds("C08.R5", "new_unmasked:fsopen-arg", t.where(), "new_fsopen(%s)" % (o[0].detail or o[0].const_int())))
         else:
             out.append(violated("C08.R5", "new_unmasked:fsopen-arg", t.where(), "new_unmasked does not ask for an unmasked instance: %r" % o))
     b = F.body(nf)
     cfg = cfg_of(b)
-    if b.argc != 1 or b.local_tys[1] != "bool":
-        out.append(violated("C08.R5", "new_fsopen:unmasked-sets-no-option", b.where(), "new_fsopen no longer takes the single `subset: bool` the rule is written for (%s)" % b.local_tys[1:b.argc + 1]))
+    # specialise new_fsopen on what new_unmasked passes: `false`, or a unit variant of an enum that replaced the bool
+    assume = None
+    if b.argc == 1 and b.local_tys[1] == "bool" and calls:
+        o = T.origins_of_arg(calls[0], 0)
+        if o and all(x.kind == "const" and x.const_int() is not None for x in o) and len({x.const_int() for x in o}) == 1:
+            assume = {1: ("bool", o[0].const_int())}
+    elif b.argc == 1 and calls:
+        ty = b.local_tys[1]
+        adt = F.adts.get(ty)
+        o = T.origins_of_arg(calls[0], 0)
+        vis = set()
+        for x in o:
+            if x.kind == "agg" and adt and (x.detail or "").startswith(ty + "::"):
+                names = [v["name"] for v in adt["variants"]]
+                nm = x.detail[len(ty) + 2:]
+                if nm in names:
+                    vis.add(names.index(nm))
+            elif x.kind == "const" and x.const_int() is not None:
+                vis.add(x.const_int())
+        if adt and len(vis) == 1:
+            assume = {1: (ty, vis.pop())}
+    if assume is None:
+        out.append(unproven("C08.R5", "new_fsopen:unmasked-sets-no-option", b.where(), "cannot specialise new_fsopen on the argument new_unmasked passes (parameters %s)" % b.local_tys[1:b.argc + 1]))
         return out
-    live = set(cfg.reach_assuming({1: ("bool", 0)}))
+    live = set(cfg.reach_assuming(assume))
     allc = [t for cb in [b] + F.closures_of(nf) for t in cb.calls("syscalls::fsconfig_set_string", "syscalls::fsconfig_set_flag", "rustix::mount::fsconfig_set_string", "rustix::mount::fsconfig_set_flag")]
     masked = [t for t in allc if t.body is not b or t.bb in live]
     if masked:
